@@ -7,7 +7,7 @@ from vf import q, qlist, clist, cbool, cnat, copt, frac, fr_json
 ID = 'C11'
 COQ_DIR = 'C11'
 COQ_HEADER = 'From V Require Import Common.Num C11.Model.\nOpen Scope Q_scope.'
-RULE = ('(000) MultiStream.reset_flow (empty, phases setter, groups of flows per phase label in every unit, total) on MultiStreams with used views and phase streams, and Stream.empty (24); (00) copy_like between streams of different property packages, single- and multi-phase on either side, incl. a chemical the receiver lacks (24); (0) structured families that make state kept between calls matter: phase streams ms[phase] with used views around a new indexer of the MultiStream (phases setter, package reset, unlink, added phases) (20); Stream.reset_flow with a new phase and flows / totals in every unit (12); single-phase streams with cached views adopted by MultiStream.from_streams, then T/P changed through either side (12); package changes (persistent, or reset-and-restore) to a package with the chemicals at other positions or with other Chemical objects at the same positions, around name-keyed accesses and volumetric totals (18); every unit string x every view through the views\' own get_data/set_data after the unit was converted legitimately elsewhere (24); a view written with another view as the value between streams / phases at different T, P, phase (24); F_vol / volumetric totals re-read after material moved between phases at unchanged overall composition (16); (a) 40 link scenarios in quick (5 per flag subset, all 8 subsets of link_with(flow, phase, TP)) between single-phase streams in different phases with ivol/imass reads, writes and get_flow on both sides in both orders before and after the link; (b) histories of 4-16 operations over a store of 2-3 streams (single-phase Stream and MultiStream, two property packages '
+RULE = ('(000) MultiStream.reset_flow (empty, phases setter, groups of flows per phase label in every unit, total) on MultiStreams with used views and phase streams, and Stream.empty (14); (00) copy_like between streams of different property packages, single- and multi-phase on either side, incl. a chemical the receiver lacks (14); (0) structured families that make state kept between calls matter: phase streams ms[phase] with used views around a new indexer of the MultiStream (phases setter, package reset, unlink, added phases) (20); Stream.reset_flow with a new phase and flows / totals in every unit (12); single-phase streams with cached views adopted by MultiStream.from_streams, then T/P changed through either side (12); package changes (persistent, or reset-and-restore) to a package with the chemicals at other positions or with other Chemical objects at the same positions, around name-keyed accesses and volumetric totals (18); every unit string x every view through the views\' own get_data/set_data after the unit was converted legitimately elsewhere (24); a view written with another view as the value between streams / phases at different T, P, phase (24); F_vol / volumetric totals re-read after material moved between phases at unchanged overall composition (16); (a) 40 link scenarios in quick (5 per flag subset, all 8 subsets of link_with(flow, phase, TP)) between single-phase streams in different phases with ivol/imass reads, writes and get_flow on both sides in both orders before and after the link; (b) histories of 4-16 operations over a store of 2-3 streams (single-phase Stream and MultiStream, two property packages '
         'of stub chemicals whose molar volume is an injective dyadic function of (chemical, phase, T, P)): reads of the '
         'mol/mass/vol views and totals, get_flow/get_total_flow in 8 units + 3 wrong-dimension units, writes through every view '
         '(imol/imass/ivol item, set_flow, set_total_flow, F_mol/F_mass/F_vol setters), interleaved with T/P/phase/phases setters, '
@@ -483,9 +483,9 @@ def gen_cases(rng, tier):
         cases.append(gen_sub_case(rng))
     for _ in range(12 if tier == 'quick' else 200):
         cases.append(gen_resetflow_case(rng))
-    for _ in range(24 if tier == 'quick' else 400):
+    for _ in range(14 if tier == 'quick' else 400):
         cases.append(gen_xcopy_case(rng))
-    for _ in range(24 if tier == 'quick' else 400):
+    for _ in range(14 if tier == 'quick' else 400):
         cases.append(gen_resetflow_m_case(rng))
     for _ in range(n):
         streams = [gen_stream(rng) for _ in range(rng.choice([2, 2, 3]))]
